@@ -478,10 +478,10 @@ pub fn history_pool() -> Vec<&'static str> {
 }
 
 /// a legal history over placeholder types `Ty::Named("#i")` and placeholder defaults `Val::U(seed)`
-pub fn gen_placeholder_history(id: &str, rng: &mut Rng, max_steps: usize) -> History {
+pub fn gen_placeholder_history(id: &str, rng: &mut Rng, max_steps: usize, script: Option<&str>) -> History {
     let pool: Vec<Ty> = (0..history_pool().len()).map(|i| Ty::Named(format!("#{i}"))).collect();
     let mut mk = |_ty: &Ty, rng: &mut Rng| Val::U(rng.below(1_000_000) as u128);
-    gen_history(id, rng, max_steps, &pool, &mut mk)
+    gen_history(id, rng, max_steps, &pool, &mut mk, script)
 }
 
 fn placeholder_src(ty: &Ty) -> String {
